@@ -47,6 +47,8 @@ def run_unit(unit):
         out["defaulted_params"] = e.defaulted_params
         out["identity_on_values"] = [x for x in e.identity_on_values if x]
         out["n_assumptions"] = len(e.assumptions)
+        out["bounded_only_clauses"] = list(e.bounded_only_clauses)
+        out["bounded_clauses_assumed"] = sorted(e.bounded_clauses_assumed)
         only = unit.get("only")
         tmo = unit.get("timeout_ms", 20000)
         ext = None
